@@ -3,15 +3,16 @@
      int gsm48_decode_mobile_alloc(struct gsm_sysinfo_freq *freq, const uint8_t *ma, uint8_t len,
                                    uint16_t *hopping, uint8_t *hopp_len, int si4)
      {   int i, j = 0;
-         uint16_t f[len << 3];                                   -- VLA, declared BEFORE the length check
+         uint16_t f[8 << 3];                                     -- fixed array, capacity c_F_CAPACITY (Gen: the bound as compiled)
          if (len > 8) return -EINVAL;
          *hopp_len = 0;
          if (si4) for (i = 0; i < 1024; i++) freq[i].mask &= ~FREQ_TYPE_HOPP;
+         if (len == 0) return 0;                                 -- empty IE: after the tabula rasa
          for (i = 1; i <= 1024; i++)
              if (freq[i & 1023].mask & FREQ_TYPE_SERV) { f[j++] = i & 1023; if (j == (len << 3)) break; }
          for (i = 0; i < (len << 3); i++)
              if (ma[len - 1 - (i >> 3)] & (1 << (i & 7))) {
-                 LOGP(..., i, f[i]);                              -- reads f[i] (possibly not yet written, inside the VLA)
+                 LOGP(..., i, f[i]);                              -- reads f[i] (possibly not yet written, inside f)
                  if (i >= j) break;
                  hopping[( *hopp_len)++] = f[i];
                  if (si4) freq[f[i]].mask |= FREQ_TYPE_HOPP;
@@ -21,11 +22,9 @@
    C integers: len is uint8_t and is promoted to int, so len << 3 is an int in 0..2040 (no wrap); i, j are int and stay
    below 2041; mask is uint8_t (the compound assignments truncate to 8 bits: u8); *hopp_len is uint8_t ((+1) mod 256);
    hopping[] entries are uint16_t and receive values < 1024.  Every array access is checked: freq (table of the caller,
-   struct gsm48_sysinfo.freq[1024]), ma (the caller's IE buffer), the VLA f (capacity len << 3), hopping (the caller's
-   buffer, struct gsm48_sysinfo.hopping[64] / uint16_t ma[64] in gsm48_rr.c).  An out-of-bounds access gives OOB.
-   A VLA whose bound evaluates to 0 is undefined behaviour in ISO C (C11 6.7.6.2p5; UBSan vla-bound): VlaZero.
-   GNU C compiles it as an array without storage; decode_gnu is the function with that reading (what the machine code does
-   after the declaration), decode is the ISO reading.  Definitions only; proofs are in Proofs/MobAllocP.v. *)
+   struct gsm48_sysinfo.freq[1024]), ma (the caller's IE buffer), the local array f (capacity c_F_CAPACITY, the loop stops
+   at j == len << 3), hopping (the caller's buffer, struct gsm48_sysinfo.hopping[64] / uint16_t ma[64] in gsm48_rr.c).
+   An out-of-bounds access gives OOB.  Definitions only; proofs are in Proofs/MobAllocP.v. *)
 From Coq Require Import ZArith List Bool.
 From OBB Require Import Base.Range Gen.MobAllocConst.
 Import ListNotations.
@@ -33,7 +32,7 @@ Open Scope Z_scope.
 
 Record st := mkst { s_freq : list Z; s_hop : list Z; s_hlen : Z }.
 
-Inductive res := Ok (rc : Z) (s : st) | OOB | VlaZero.
+Inductive res := Ok (rc : Z) (s : st) | OOB.
 
 (* ---------- checked array primitives ---------- *)
 Definition rd (l : list Z) (i : Z) : option Z := if i <? 0 then None else nth_error l (Z.to_nat i).
@@ -60,22 +59,22 @@ Definition order : list Z := map (fun i => Z.land i 1023) (range 1 1025).
    Proofs.visit_faithful when the table has 1024 entries *)
 Definition visit (freq : list Z) : list (Z * Z) := combine order (skipn 1 (firstn 1024 freq) ++ firstn 1 freq).
 
-(* f is the written prefix of the VLA, j its length; None = write outside the VLA *)
-Fixpoint gen_f (cap : Z) (l : list (Z * Z)) (f : list Z) (j : Z) : option (list Z * Z) :=
+(* f is the written prefix of the local array (capacity fcap), j its length, lim = len << 3; None = write outside f *)
+Fixpoint gen_f (fcap lim : Z) (l : list (Z * Z)) (f : list Z) (j : Z) : option (list Z * Z) :=
   match l with
   | [] => Some (f, j)
   | (a, m) :: r =>
       if is_serv m then
-        if j <? cap then                                         (* f[j++] = i & 1023 : checked write *)
+        if j <? fcap then                                        (* f[j++] = i & 1023 : checked write *)
           let f' := f ++ [a] in
           let j' := j + 1 in
-          if j' =? cap then Some (f', j') else gen_f cap r f' j'  (* if (j == (len << 3)) break *)
+          if j' =? lim then Some (f', j') else gen_f fcap lim r f' j'  (* if (j == (len << 3)) break *)
         else None
-      else gen_f cap r f j
+      else gen_f fcap lim r f j
   end.
 
 (* loop 3 over the remaining values of i; None = access outside a buffer *)
-Fixpoint pick (ma : list Z) (len cap : Z) (f : list Z) (j : Z) (si4 : bool) (is : list Z) (s : st) : option st :=
+Fixpoint pick (ma : list Z) (len fcap : Z) (f : list Z) (j : Z) (si4 : bool) (is : list Z) (s : st) : option st :=
   match is with
   | [] => Some s
   | i :: r =>
@@ -83,7 +82,7 @@ Fixpoint pick (ma : list Z) (len cap : Z) (f : list Z) (j : Z) (si4 : bool) (is 
       | None => None
       | Some b =>
           if negb (Z.land b (Z.shiftl 1 (Z.land i 7)) =? 0) then (* & (1 << (i & 7)) *)
-            if cap <=? i then None                               (* LOGP argument f[i]: inside the VLA? *)
+            if fcap <=? i then None                              (* LOGP argument f[i]: inside f? *)
             else if j <=? i then Some s                          (* if (i >= j) break *)
             else
               match rd f i with
@@ -99,36 +98,35 @@ Fixpoint pick (ma : list Z) (len cap : Z) (f : list Z) (j : Z) (si4 : bool) (is 
                         | Some m =>
                             match wr (s_freq s) a (set_hopp m) with
                             | None => None
-                            | Some fr' => pick ma len cap f j si4 r (mkst fr' hop' hl')
+                            | Some fr' => pick ma len fcap f j si4 r (mkst fr' hop' hl')
                             end
                         end
-                      else pick ma len cap f j si4 r (mkst (s_freq s) hop' hl')
+                      else pick ma len fcap f j si4 r (mkst (s_freq s) hop' hl')
                   end
               end
-          else pick ma len cap f j si4 r s
+          else pick ma len fcap f j si4 r s
       end
   end.
 
-(* the function body after the declaration of f, f having capacity cap = len << 3 (possibly 0: GNU C) *)
-Definition decode_gnu (freq ma : list Z) (len : Z) (hop : list Z) (hl si4 : Z) : res :=
-  let cap := Z.shiftl len 3 in
+Definition decode (freq ma : list Z) (len : Z) (hop : list Z) (hl si4 : Z) : res :=
+  let lim := Z.shiftl len 3 in
   if 8 <? len then Ok (- c_EINVAL) (mkst freq hop hl)
-  else if Zlength freq <? 1024 then OOB
   else
     let si4b := negb (si4 =? 0) in
-    let fr1 := if si4b then tabula_rasa freq else freq in
-    match gen_f cap (visit fr1) [] 0 with
-    | None => OOB
-    | Some (f, j) =>
-        match pick ma len cap f j si4b (range 0 cap) (mkst fr1 hop 0) with
+    if si4b && (Zlength freq <? 1024) then OOB                   (* loop 1 touches freq[0..1023] *)
+    else
+      let fr1 := if si4b then tabula_rasa freq else freq in
+      if len =? 0 then Ok 0 (mkst fr1 hop 0)                     (* if (len == 0) return 0; *)
+      else if Zlength freq <? 1024 then OOB                      (* loop 2 touches freq[0..1023] *)
+      else
+        match gen_f c_F_CAPACITY lim (visit fr1) [] 0 with
         | None => OOB
-        | Some s => Ok 0 s
-        end
-    end.
-
-(* ISO C: the declaration  uint16_t f[len << 3]  with a bound of 0 is undefined *)
-Definition decode (freq ma : list Z) (len : Z) (hop : list Z) (hl si4 : Z) : res :=
-  if Z.shiftl len 3 <=? 0 then VlaZero else decode_gnu freq ma len hop hl si4.
+        | Some (f, j) =>
+            match pick ma len c_F_CAPACITY f j si4b (range 0 lim) (mkst fr1 hop 0) with
+            | None => OOB
+            | Some s => Ok 0 s
+            end
+        end.
 
 (* ---------- specification side: 3GPP TS 44.018 10.5.2.21, literal numbers ---------- *)
 Definition zn (l : list Z) (i : Z) : Z := nth (Z.to_nat i) l 0.
@@ -148,7 +146,7 @@ Definition has (l : list Z) (a : Z) : bool := existsb (Z.eqb a) l.
 (* ---------- wire functions for the correspondence driver ----------
    arguments: si4 len hl0 hfill bg nma ma_0 .. ma_{nma-1} (idx mask)*   with idx strictly ascending;
    table entry idx has the given mask, every other entry has mask bg; hopping[k] initially (hfill + k) mod 65536.
-   observation: rc hopp_len hopping[0..size-1] (idx newmask)* for every changed table entry | -998 (OOB) | -997 (VlaZero) *)
+   observation: rc hopp_len hopping[0..size-1] (idx newmask)* for every changed table entry | -998 (OOB) *)
 Fixpoint build (n : nat) (i bg : Z) (ps : list Z) : option (list Z) :=
   match n with
   | O => match ps with [] => Some [] | _ => None end
@@ -185,7 +183,6 @@ Definition wire (dec : list Z -> list Z -> Z -> list Z -> Z -> Z -> res) (a : li
               match dec freq ma len hop hl0 si4 with
               | Ok rc s => rc :: s_hlen s :: s_hop s ++ diff 0 freq (s_freq s)
               | OOB => [-998]
-              | VlaZero => [-997]
               end
           end
         else [-999]
@@ -194,7 +191,6 @@ Definition wire (dec : list Z -> list Z -> Z -> list Z -> Z -> Z -> res) (a : li
   end.
 
 Definition w_c20_decode (a : list Z) : list Z := wire decode a.
-Definition w_c20_decode_gnu (a : list Z) : list Z := wire decode_gnu a.
 (* the specification itself, for the generator's cross-check of the Python oracle: hopping list only *)
 Definition w_c20_spec (a : list Z) : list Z :=
   match a with
